@@ -7,8 +7,9 @@
   A decorated function is a chain of wrapper instances around a plain function: `chain` lists
   (class, parameters) from the outside in, `base` names the plain function.  The memo field
   `function_fullargspec` is not part of the model (it is filled lazily and does not affect behaviour).
-  Object identity is not modelled: the constructor edits inner wrapper objects of its operand in place
-  (`f[_function] = f.function.function`), the model returns a new chain.
+  The constructor returns a new chain and leaves its operand as it is (repaired code, P7: the pinned constructor
+  edited inner wrapper objects of its operand in place, `f[_function] = f.function.function`); several objects
+  alive at once are `stepM` / `runMulti` in WrapHist.lean.
 -/
 import PygModel.Bind
 
@@ -168,6 +169,56 @@ def int2floatKw (exc : List String) : PDict → PDict
 /-- the call `pd2np.wrapped` forwards when the first argument is not a pandas object -/
 def pd2npCall (exc : List String) (c : Call) : Call :=
   { args := int2floatList c.args, kw := int2floatKw exc c.kw }
+
+/-! ### the DOMAIN of `evalChain` / `evalH`: "loops on non-container input" (review t5)
+
+The `loops` arm of `evalChain` forwards ONE call (`loopsCall`); that is what `loops.wrapped` does when the argument it dispatches
+on - the first positional argument, else the keyword named like the first parameter - is not of one of the looped `types`
+(_loop.py:207-268: every branch of `_wrapped` tests `type(arg) in self.types` / `isinstance(arg, self.types)`).  On a list / tuple /
+dict of a looped type the code makes one call per element (property C19) and `evalChain` is NOT a model of it.  `inDomain` says
+whether every `loops` layer of a stack receives a non-looped argument; the driver answers lines outside the domain `bad-op`, and
+every theorem about `evalChain` / `evalH` with a `loops` layer is a statement about the code only where `inDomain` holds
+(`Props.C18.inDomain_false_iff` characterises it through `reach`). -/
+
+/-- `self.types` of a `loops` wrapper, as the names the driver is sent -/
+def typesOf (p : PDict) : List String :=
+  match p.lookup "types" with
+  | some (.list xs) => xs.filterMap fun | .cell (.str s) => some s | _ => Option.none
+  | some (.tuple xs) => xs.filterMap fun | .cell (.str s) => some s | _ => Option.none
+  | some (.cell (.str s)) => [s]
+  | _ => []
+
+/-- `type(arg) in self.types` for the container kinds of the model universe -/
+def isLooped (types : List String) : Val → Bool
+  | .list _ => types.contains "list"
+  | .tuple _ => types.contains "tuple"
+  | .dict _ => types.contains "dict"
+  | .cell _ => false
+
+/-- the argument `loops.wrapped` dispatches on (`none`: no positional argument and no keyword named like the first parameter -
+the call is forwarded untouched) -/
+def loopsArg (s : Sig) (c : Call) : Option Val :=
+  match c.args, s.params with
+  | a :: _, _ => some a
+  | [], top :: _ => c.kw.lookup top
+  | [], [] => Option.none
+
+/-- the `loops` layer with parameters `p` receives a call it does not loop over -/
+def loopsPasses (s : Sig) (p : PDict) (c : Call) : Bool :=
+  match loopsArg s c with
+  | some a => !isLooped (typesOf p) a
+  | Option.none => true
+
+/-- every `loops` layer of the stack receives a call it does not loop over (the layers above it forward `kwFilter` /
+`loopsCall` / `pd2npCall` of the call; `try_*` and `cache` forward the call itself) -/
+def inDomain (s : Sig) : List (Cls × PDict) → Call → Bool
+  | [], _ => true
+  | (.loops, p) :: rest, c => loopsPasses s p c && inDomain s rest (loopsCall s c)
+  | (.kwargsSupport, _) :: rest, c => inDomain s rest (kwFilter s c)
+  | (.pd2np, p) :: rest, c => inDomain s rest (pd2npCall (excOf p) c)
+  | (.tryValue, _) :: rest, c => inDomain s rest c
+  | (.tryBack, _) :: rest, c => inDomain s rest c
+  | (.cache, _) :: rest, c => inDomain s rest c
 
 /-- python truthiness (`if x:`) of a parameter value -/
 def Val.truthy : Val → Bool
